@@ -120,7 +120,7 @@ NOTES = {
     'S-C01': 'first missed: the known-finding predicate of C01-F1 (any broken parentless chain) swallowed it; the predicate was narrowed to chains the shipped per-recurrence algorithm cannot reach',
     'S-C02': 'first missed: the world had no job that is accepted and then lost before starting, and the outcome plan never exhausted the submission retries; both added, and a never-ending run is now ended as a livelock and judged instead of being a harness error',
     'S-C20': 'first produced harness errors: the SQLite proxy did not implement the connection context manager; added',
-    'S-C27': 'first missed: the oracle took "recorded" from the database only; it now also uses the pooled upstream task, and a reload variant is built at injection time around an output completed in that very iteration (counting messages merely delivered to the scheduler's queue was tried as well and withdrawn: a false alarm in the thorough tier)',
+    'S-C27': 'first missed: the oracle took "recorded" from the database only; it now also uses the pooled upstream task, and a reload variant is built at injection time around an output completed in that very iteration (counting messages merely delivered to the scheduler queue was tried as well and withdrawn: a false alarm in the thorough tier)',
 }
 
 
